@@ -184,14 +184,16 @@ class Job:
         return s
 
     def prove(self, oid, conds, neg, replay=None, inputs=None, timeout=30, congruence=None,
-              known=None, extra_models=3, fallback=()):
+              known=None, extra_models=3, fallback=(), near=None):
         """obligation: conds => not neg.  unsat: discharged.  sat: candidate, reported only if
         `replay` (module:function, evaluated on the unpatched repo code) reproduces it.
         inputs: {name: z3 term} whose model values are handed to the replay function."""
         conds = list(conds)
-        if congruence:
-            conds += Pure.congruence(congruence)
         negs = neg if isinstance(neg, (list, tuple)) else [neg]
+        if congruence:
+            # near=d: only applications within d definition levels of the goal (earlier steps are covered by lemmas)
+            within = Pure.near([n for n in negs if isinstance(n, z3.ExprRef)], near) if near is not None else None
+            conds += Pure.congruence(congruence, within)
         goal = z3.Or(*negs) if len(negs) != 1 else negs[0]
         trivial = z3.is_false(z3.simplify(goal))
         s = self._solver(conds + [goal], timeout)
